@@ -163,7 +163,7 @@ func TestC11(t *testing.T) {
 	rc.MinRules, rc.MaxRules, rc.ExprDepth, rc.MaxActions = 1, 8, 2, 2
 	rc.Marks, rc.Probes = true, true
 	cfg := rsGenCfg{Rules: rc, Vary: true}
-	check(t, 0, budget(1500, 60000), func(rt *rapid.T) {
+	check(t, 0, budget(6000, 80000), func(rt *rapid.T) {
 		c, rs := genRSCase(rt, cfg)
 		labels := featLabels(rs)
 		if rapid.IntRange(0, 2).Draw(rt, "inject_failing") == 0 {
